@@ -76,7 +76,10 @@ def decode_op(t):
 
 def strategy():
     op = st.tuples(st.integers(0, 10), st.integers(0, 16 * 6 * 4096 * 8 - 1)).map(decode_op)
-    return st.fixed_dictionaries({'ops': worldops.chunked(op, 40)})
+    # amp: 0, or how many layers every push_layer operation pushes (maps with dozens of handle layers, as repeated
+    # population with nesting produces)
+    return st.fixed_dictionaries({'ops': worldops.chunked(op, 40),
+                                  'amp': worldops.size_amp(none=24, sizes=(17, 33, 34, 40, 70, 130))})
 
 
 class MMap:
@@ -212,8 +215,8 @@ class Run:
         rec(self.model)
 
     # ---- operations ---------------------------------------------------------------------------------
-    def do_set(self, mm, names_ix, kind):
-        names = [NAMES[i] for i in names_ix]
+    def do_set(self, mm, names_ix, kind, names=None):
+        names = names if names is not None else [NAMES[i] for i in names_ix]
         real, node = self.make_value(kind)
         key = '/'.join(names)
         try:
@@ -244,9 +247,19 @@ class Run:
     def op_push(self, target):
         maps = self.all_maps()
         mm, _ = maps[target % len(maps)]
-        mm.obj.handles.maps.insert(0, {})
-        mm.layers.insert(0, {})
+        amp = self.case.get('amp') or 1
+        for r in range(amp):
+            mm.obj.handles.maps.insert(0, {})
+            mm.layers.insert(0, {})
+            if amp > 1 and r % 4 == 0 and r < amp // 2:
+                # while the first half of the layers piles up, the handles of the map are assigned anew now and
+                # then (as a reload would): one name lives in several layers, the newest one deep below the top
+                names = mm.handle_names()
+                if names:
+                    self.do_set(mm, None, 0, names=[names[(r // 4) % len(names)]])
         self.flags['push_layer'] += 1
+        if self.case.get('amp'):
+            self.flags['many_layers'] += 1
 
     def op_clear(self, target):
         maps = self.all_maps()
